@@ -123,3 +123,46 @@ func VerifC15_OrdinaryDataSilent() {
 	verif.Reach("column-processed")
 	verif.Assert(counter.n == 0, "no-false-alarm")
 }
+
+// VerifC15_PoisonAfterOrdinaryValue: an ordinary protected value (of the reading client or of another one) earlier in the
+// same column does not hide a poison record that follows it, whatever bytes stand between them.
+func VerifC15_PoisonAfterOrdinaryValue() {
+	crypto.InitRegistry(nil)
+	s, syms, pairs := verifStores(1)
+	s.AddSym("B", []byte("0123456789abcdef0123456789abcdeB"))
+	kpb, _ := keys.New(keys.TypeEC)
+	s.AddPair("B", kpb)
+	maker := vks.New()
+	maker.PoisonSym = [][]byte{syms[0]}
+	maker.PoisonPairs = []*keys.Keypair{pairs[0]}
+	var rec []byte
+	var err error
+	if verif.Choose("kind", 0, 1) == 0 {
+		rec, err = CreateSymmetricPoisonRecord(maker, 2)
+	} else {
+		rec, err = CreatePoisonRecord(maker, 2)
+	}
+	if err != nil {
+		return
+	}
+	owner := []byte("A")
+	if verif.Choose("owner", 0, 1) == 1 {
+		owner = []byte("B")
+	}
+	name := "acrablock"
+	if verif.Choose("ordinary-kind", 0, 1) == 1 {
+		name = "acrastruct"
+	}
+	h, _ := crypto.GetHandlerByName(name)
+	ordinary, err := crypto.NewRegistryHandler(s).EncryptWithHandler(h, owner, []byte("ordinary"))
+	if err != nil {
+		return
+	}
+	between := verif.Bytes("between", verif.Choose("b", 0, 2+verif.Tier()))
+	col := append(append(verifDup(ordinary), between...), rec...)
+	counter := &verifCounter{}
+	wrapper := verifChain(s, counter)
+	wrapper.OnColumn(verifCtx("A"), verifDup(col))
+	verif.Reach("column-processed")
+	verif.Assert(counter.n >= 1, "poison-callbacks-ran")
+}
